@@ -27,7 +27,8 @@ Inductive mitem :=
 | MKvSet (k : key) (v : N)               (* plain column *)
 | MKvDel (k : key).
 
-Record mcommit := { mc_id : N; mc_items : list mitem; mc_check : bool; mc_used : list key }.
+(* mc_first: the id the commit got when it was first queued; a deferral gives it a new mc_id and keeps this one *)
+Record mcommit := { mc_id : N; mc_first : N; mc_items : list mitem; mc_check : bool; mc_used : list key }.
 
 Inductive uop :=
 | UInsertTree (k : key) (t : tree)
@@ -219,7 +220,7 @@ Definition mcommit_tx (cf : mcfg) (s : mstate) (ops : list uop) : mstate * N :=
   else if existsb (fun it => match it with MRootRef _ => negb (m_rc cf) | _ => false end) (p_roots p) then (s1, 1)
   else
     let cid := mcid s1 + 1 in
-    let c := {| mc_id := cid; mc_items := items_of p; mc_check := p_check p; mc_used := p_used p |} in
+    let c := {| mc_id := cid; mc_first := cid; mc_items := items_of p; mc_check := p_check p; mc_used := p_used p |} in
     let s2 := to_overlay cf cid (items_of p) s1 in
     ({| roots := roots s2; nodes := nodes s2; nrc := nrc s2; kv := kv s2; rov := rov s2; aov := aov s2; kvov := kvov s2;
         mqueue := mqueue s2 ++ [c]; mcid := cid; next_id := next_id s2; locked := locked s2; readers := readers s2; to_deref := to_deref s2 |}, 0).
@@ -303,11 +304,14 @@ Definition dec_to_deref (s : mstate) (k : key) : mstate :=
   end.
 
 (* process_commits: one queued commit; a tree dereference is deferred while the tree is locked or
-   a queued commit depends on it. Deferral re-queues the commit at the BACK, under a new identity
-   if anything else is queued (defer_commit). *)
+   a queued commit MADE LATER depends on it (a commit made earlier that sits behind this one only
+   because it was deferred itself is not waited for). Deferral re-queues the commit at the BACK,
+   under a new identity if anything else is queued (defer_commit). *)
+Definition waits_for (c : mcommit) (rest : list mcommit) (k : key) : bool :=
+  existsb (fun c' => (mc_first c <? mc_first c') && amem (mc_used c') k) rest.
 Definition must_defer (s : mstate) (c : mcommit) (rest : list mcommit) : bool :=
   mc_check c &&
-  existsb (fun k => amem (locked s) k || existsb (fun c' => amem (mc_used c') k) rest) (deref_keys (mc_items c)).
+  existsb (fun k => amem (locked s) k || waits_for c rest k) (deref_keys (mc_items c)).
 
 Definition mprocess (cf : mcfg) (s : mstate) : mstate :=
   match mqueue s with
@@ -321,7 +325,7 @@ Definition mprocess (cf : mcfg) (s : mstate) : mstate :=
             let s1 := to_overlay cf nid' (mc_items c) s in
             let s2 := clean_ov (mc_id c) (mc_items c) s1 in
             {| roots := roots s2; nodes := nodes s2; nrc := nrc s2; kv := kv s2; rov := rov s2; aov := aov s2; kvov := kvov s2;
-               mqueue := rest ++ [{| mc_id := nid'; mc_items := mc_items c; mc_check := mc_check c; mc_used := mc_used c |}];
+               mqueue := rest ++ [{| mc_id := nid'; mc_first := mc_first c; mc_items := mc_items c; mc_check := mc_check c; mc_used := mc_used c |}];
                mcid := nid'; next_id := next_id s2; locked := locked s2; readers := readers s2; to_deref := to_deref s2 |}
         end
       else
@@ -359,7 +363,8 @@ Definition munlock (s : mstate) (k : key) : mstate :=
 Definition mreopen (cf : mcfg) (s : mstate) : mstate :=
   let s1 := {| roots := roots s; nodes := nodes s; nrc := nrc s; kv := kv s; rov := rov s; aov := aov s; kvov := kvov s;
                mqueue := mqueue s; mcid := mcid s; next_id := next_id s; locked := []; readers := []; to_deref := to_deref s |} in
-  let s2 := mprocess_all cf (2 * length (mqueue s1) + 2) s1 in
+  (* enough for the whole queue whatever defers (Proofs/MultiTreeDrain.v) *)
+  let s2 := mprocess_all cf (length (mqueue s1) * length (mqueue s1)) s1 in
   {| roots := roots s2; nodes := nodes s2; nrc := nrc s2; kv := kv s2; rov := []; aov := []; kvov := []; mqueue := [];
      mcid := 0; next_id := next_id s2; locked := []; readers := []; to_deref := [] |}.
 
